@@ -876,6 +876,7 @@ package tree
 //@   flag noframe
 //@   requires t != nil && INV12()
 //@   call tree.pathLengths [row_i_is_filled_by_a_walk_from_tip_i] a0 == tips[rangeindex + 1] && a1 == nil && a2 == matrix[rangeindex + 1] && a3 == 0.0 && a4 == metric
+//@   ensures [the_matrix_is_never_nil] arr(result0) != 0
 //@   ensures [square_matrix_indexed_like_the_tip_list] len(result0) == len(result1) && (forall i int :: {result0[i]} 0 <= i && i < len(result0) ==> len(result0[i]) == len(result1))
 //@   ensures [tip_i_has_identifier_i] forall i int :: {result1[i]} 0 <= i && i < len(result1) ==> result1[i] != nil && result1[i].id == i
 //@   loop 1
@@ -897,6 +898,9 @@ package tree
 //@   requires treechan != nil
 //@   recv treechan [message_carries_a_tree] msg.Tree != nil
 //@   call (*tree.Tree).ToDistanceMatrix [every_tree_is_measured_with_the_requested_metric] a1 == old(metric) && a0 == t.Tree
+//@   loop 1
+//@     invariant [the_running_sum_exists_from_the_first_tree_on] ntrees >= 0 && (ntrees > 0 ==> arr(matrix) != 0) && (ntrees == 0 ==> arr(matrix) == 0)
+//@     step [every_tree_counts_for_one_and_only_the_first_tree_starts_the_running_sum_whatever_its_identifier] next(ntrees) == ntrees + 1 && (ntrees > 0 ==> next(matrix) == matrix && next(tips) == tips)
 //@   loop 4
 //@     complete [all_iterations_no_early_exit]
 //@     step [entry_accumulates_the_same_entry_of_the_next_matrix] matrix[i][j] == atHead(matrix[i][j]) + atHead(matrix2[i][j])
@@ -1106,7 +1110,7 @@ package tree
 //@ func (*tree.nni).Undo
 //@   requires nniappliedshape(n) && INV() && ORI() && ROOTOK(n.t)
 //@   requires forall k int :: {n.n1.neigh[k]} 0 <= k && k < 3 && n.n1.neigh[k] == nniX(n) ==> n.n1.br[k].left == n.n1
-//@   requires forall k int, m int :: {n.n1.br[k], n.n2.br[m]} 0 <= k && k < 3 && 0 <= m && m < 3 && n.n1.neigh[k] == n.n2 && n.n2.neigh[m] == n.n1_2 ==> (n.n2.br[m].right == n.n2 ? n.n1.br[k].left == n.n2 : n.n1.br[k].left == n.n1)
+//@   requires forall k int, m int :: {n.n1.br[k], n.n2.br[m]} 0 <= k && k < 3 && 0 <= m && m < 3 && n.n1.neigh[k] == n.n2 && n.n2.neigh[m] == n.n1_2 ==> (n.n2.br[m].right == n.n2 ==> n.n1.br[k].left == n.n2)
 //@   allocates iface
 //@   assigns n.applied, Edge.left, Edge.right, elems(n.n1.neigh), elems(n.n1.br), elems(n.n2.neigh), elems(n.n2.br), elems(n.n1_2.neigh), elems(nniX(n).neigh)
 //@   ensures [not_applied_is_a_no_op] !old(n.applied) ==> err == nil && !n.applied
@@ -1289,6 +1293,7 @@ package tree
 //@   ensures [too_few_tips_is_an_error] (nbTips < 3 && !rooted) || (nbTips < 2 && rooted) ==> result1 != nil && result0 == nil
 //@   ensures [a_name_list_of_the_wrong_length_is_an_error] len(tipNames) > 0 && len(tipNames) != nbTips ==> result1 != nil
 //@   call (*tree.Node).SetName [tip_k_takes_the_k_th_given_name] len(tipNames) > 0 ==> a1 == tipNames[total - 1]
+//@   call (*tree.Node).SetName [the_k_th_start_tip_carries_number_k_no_number_is_used_twice] total == ghost(ncalls_SetName) - old(ghost(ncalls_SetName)) + 1
 //@   call tree.allTopologies_recur [the_remaining_tips_are_inserted_recursively] a0 == t && a1 == nbTips && a2 == (rooted ? 1 : 3)
 
 //@ func (*tree.Tree).NewNode
@@ -1528,7 +1533,9 @@ package tree
 //@ define LIVEBR() bool = forall m *Node, k int :: {m.br[k]} allocated(m) && 0 <= k && k < len(m.br) ==> allocated(m.br[k]) && allocated(m.br[k].left) && allocated(m.br[k].right)
 
 //@ func (*tree.Tree).ReorderEdges
+//@   flag countcalls
 //@   requires t != nil && allocated(n) && LIVEBR()
+//@   call (*tree.Tree).ReorderEdges [the_walk_continues_below_the_far_end_of_every_branch_not_leading_back_with_this_node_as_origin] a0 == t && a1 == next.right && a2 == n && a3 == reversed
 //@   ensures [listed_branches_keep_two_live_ends] LIVEBR()
 //@   allocates []*Edge, iface
 //@   assigns Edge.left, Edge.right, cell(reversed), elems("*Edge")
@@ -1539,6 +1546,7 @@ package tree
 //@     assigns Edge.left, Edge.right, cell(reversed), elems("*Edge")
 //@     invariant [every_branch_keeps_its_two_ends] forall e *Edge :: {e.left} {e.right} sameends(e)
 //@     invariant [listed_branches_keep_two_live_ends] LIVEBR() && (forall m *Node :: {m.br} allocated(m) ==> m.br == old(m.br))
+//@     step [every_branch_not_leading_back_is_followed_whatever_the_degree_of_its_far_end] ghost(ncalls_ReorderEdges) == atHead(ghost(ncalls_ReorderEdges)) + ((atHead(n.br[rangeindex + 1].right) != prev && atHead(n.br[rangeindex + 1].left) != prev) ? 1 : 0)
 
 //@ func (*tree.Tree).reroot_nocheck
 //@   requires t != nil && allocated(n) && LIVEBR()
